@@ -240,27 +240,18 @@ namespace Pistache
         public:
             friend class ResponseWriter;
 
+            // The state of a time-out is shared between the Timeout object, which
+            // may be moved (together with the ResponseWriter that holds it) while
+            // the timer is armed, and the continuation that runs when the timer
+            // fires: the continuation must not refer to the object it was armed
+            // through.
             explicit Timeout(Timeout&& other)
-                : handler(other.handler)
-                , version(other.version)
-                , transport(other.transport)
-                , armed(other.armed)
-                , timerFd(other.timerFd)
-                , peer(std::move(other.peer))
-            {
-                // cppcheck-suppress useInitializationList
-                other.timerFd = -1;
-            }
+                : state_(std::move(other.state_))
+            { }
 
             Timeout& operator=(Timeout&& other)
             {
-                handler       = other.handler;
-                transport     = other.transport;
-                version       = other.version;
-                armed         = other.armed;
-                timerFd       = other.timerFd;
-                other.timerFd = -1;
-                peer          = std::move(other.peer);
+                state_ = std::move(other.state_);
                 return *this;
             }
 
@@ -269,20 +260,21 @@ namespace Pistache
             template <typename Duration>
             void arm(Duration duration)
             {
+                auto state = state_;
                 Async::Promise<uint64_t> p([=](Async::Deferred<uint64_t> deferred) {
-                    timerFd = TRY_RET(timerfd_create(CLOCK_MONOTONIC, TFD_NONBLOCK));
-                    transport->armTimer(timerFd, duration, std::move(deferred));
+                    state->timerFd = TRY_RET(timerfd_create(CLOCK_MONOTONIC, TFD_NONBLOCK));
+                    state->transport->armTimer(state->timerFd, duration, std::move(deferred));
                 });
 
                 p.then(
                     [=](uint64_t numWakeup) {
-                        this->armed = false;
-                        this->onTimeout(numWakeup);
-                        close(timerFd);
+                        state->armed = false;
+                        onTimeout(*state, numWakeup);
+                        close(state->timerFd);
                     },
                     [=](std::exception_ptr exc) { std::rethrow_exception(exc); });
 
-                armed = true;
+                state->armed = true;
             }
 
             void disarm();
@@ -290,19 +282,36 @@ namespace Pistache
             bool isArmed() const;
 
         private:
+            struct State
+            {
+                State(Handler* handler_, Http::Version version_, Tcp::Transport* transport_,
+                      std::weak_ptr<Tcp::Peer> peer_)
+                    : handler(handler_)
+                    , version(version_)
+                    , transport(transport_)
+                    , armed(false)
+                    , timerFd(-1)
+                    , peer(std::move(peer_))
+                { }
+
+                Handler* handler;
+                Http::Version version;
+                Tcp::Transport* transport;
+                // set by the thread that arms, cleared by the worker thread when
+                // the timer fires
+                std::atomic<bool> armed;
+                Fd timerFd;
+                std::weak_ptr<Tcp::Peer> peer;
+            };
+
             Timeout(const Timeout& other) = default;
 
             Timeout(Tcp::Transport* transport_, Http::Version version, Handler* handler_,
                     std::weak_ptr<Tcp::Peer> peer_);
 
-            void onTimeout(uint64_t numWakeup);
+            static void onTimeout(const State& state, uint64_t numWakeup);
 
-            Handler* handler;
-            Http::Version version;
-            Tcp::Transport* transport;
-            bool armed;
-            Fd timerFd;
-            std::weak_ptr<Tcp::Peer> peer;
+            std::shared_ptr<State> state_;
         };
 
         class ResponseStream final
